@@ -6,6 +6,7 @@ import (
 	"go/constant"
 	"go/types"
 	"regexp/syntax"
+	"sort"
 	"strings"
 
 	"golang.org/x/tools/go/ssa"
@@ -93,6 +94,58 @@ func rulesC15(c *Ctx) {
 			return true
 		})
 		c.Check(found, "C15.redact", FuncName(m), m.Pos(), "the printer does not write [REDACTED]")
+	}
+
+	// ---- Sanitize: every text goes through every pattern ----
+	c.Rule("C15.allpaths", "every return of Sanitize is dominated by a match attempt of each redaction pattern: no path (fast path, length or substring pre-filter) hands the text back before the case-insensitive patterns have looked at it")
+	if sf0 := p.SSAFunc(p.Func("Sanitize")); sf0 == nil {
+		c.Unk("C15.allpaths", "Sanitize", 0, "anchor not found")
+	} else {
+		finds := map[string][]*ssa.BasicBlock{}
+		for _, b := range sf0.Blocks {
+			for _, in := range b.Instrs {
+				call, ok := in.(*ssa.Call)
+				if !ok || call.Call.StaticCallee() == nil || !strings.HasPrefix(call.Call.StaticCallee().Name(), "Find") || len(call.Call.Args) == 0 {
+					continue
+				}
+				if ld, ok := call.Call.Args[0].(*ssa.UnOp); ok {
+					if g, ok := ld.X.(*ssa.Global); ok {
+						finds[g.Name()] = append(finds[g.Name()], b)
+					}
+				}
+			}
+		}
+		if len(finds) < 2 {
+			c.Unk("C15.allpaths", "Sanitize", sf0.Pos(), fmt.Sprintf("match attempts on %d package-level patterns found, expected 2", len(finds)))
+		} else {
+			nr := 0
+			for _, b := range sf0.Blocks {
+				ret, ok := b.Instrs[len(b.Instrs)-1].(*ssa.Return)
+				if !ok {
+					continue
+				}
+				nr++
+				var missing []string
+				for g, blocks := range finds {
+					dom := false
+					for _, fb := range blocks {
+						if fb.Dominates(b) {
+							dom = true
+						}
+					}
+					if !dom {
+						missing = append(missing, g)
+					}
+				}
+				sort.Strings(missing)
+				key := fmt.Sprintf("Sanitize: return #%d", nr)
+				if len(missing) > 0 {
+					c.Bad("C15.allpaths", key, ret.Pos(), "reached without a match attempt of "+strings.Join(missing, ", ")+": a statement that takes this path is returned with its password")
+				} else {
+					c.OK("C15.allpaths", key, ret.Pos(), "after both patterns")
+				}
+			}
+		}
 	}
 
 	// ---- Sanitize: offsets belong to the text they cut ----
@@ -209,6 +262,34 @@ func sameText(a, b ssa.Value) bool {
 
 func patternsC15(c *Ctx) {
 	p := c.P
+	// ---- the lexer's separators are the patterns' separators ----
+	c.Rule("C15.wsclass", "every rune the lexer's isWhitespace accepts as a separator (evaluated by constant propagation over U+0000..U+3000, unicode predicates folded) is matched by the `\\s` the redaction patterns use between words (RE2: tab, line feed, form feed, carriage return, space): a separator the parser accepts and the patterns do not leaves a valid password statement unredacted")
+	if isWS := p.Func("isWhitespace"); isWS == nil {
+		c.Unk("C15.wsclass", "isWhitespace", 0, "anchor not found")
+	} else {
+		s := p.newSCCP()
+		var outside []string
+		undec := 0
+		for ch := rune(0); ch <= 0x3000; ch++ {
+			got, ok := s.evalConstBool(isWS, cConst(constant.MakeInt64(int64(ch))))
+			if !ok {
+				undec++
+				continue
+			}
+			re2 := ch == '\t' || ch == '\n' || ch == '\f' || ch == '\r' || ch == ' '
+			if got && !re2 && len(outside) < 6 {
+				outside = append(outside, fmt.Sprintf("%U", ch))
+			}
+		}
+		switch {
+		case len(outside) > 0:
+			c.Bad("C15.wsclass", "isWhitespace within \\s", isWS.Pos(), "the lexer also separates tokens at "+strings.Join(outside, ", ")+" ..., which `\\s` does not match: `SET PASSWORD` laid out with such a separator parses but is returned by Sanitize with the password in it")
+		case undec > 0:
+			c.Unk("C15.wsclass", "isWhitespace within \\s", isWS.Pos(), fmt.Sprintf("isWhitespace is not a constant function of the rune for %d runes", undec))
+		default:
+			c.OK("C15.wsclass", "isWhitespace within \\s", isWS.Pos(), "12289 runes evaluated")
+		}
+	}
 	c.Rule("C15.patterns", "each raw-text redaction pattern is case-insensitive and admits, around and inside the password, what the parser admits: (a) no whitespace is demanded after a self-delimiting `=`; (b) separators admit what ScanIgnoreWhitespace skips, comments included; (c) the captured password admits any quoted string literal, blanks and double quotes inside it included")
 	for _, gname := range []string{"sanitizeSetPassword", "sanitizeCreatePassword"} {
 		g := p.Global(gname)
